@@ -44,5 +44,6 @@ out.append(open('/verif/tools/seedreadme_wave2.md').read())
 out.append(open('/verif/tools/seedreadme_wave3.md').read())
 out.append(open('/verif/tools/seedreadme_wave4.md').read())
 out.append(open('/verif/tools/seedreadme_wave5.md').read())
+out.append(open('/verif/tools/seedreadme_wave6.md').read())
 open('/verif/seeded/README.md', 'w').write('\n'.join(out) + '\n')
 print(len(rows), "seeds")
